@@ -6,7 +6,8 @@ ROOT = os.path.dirname(os.path.dirname(os.path.abspath(__file__)))
 
 HOOK_COMMITS = ["7a8ba4f"]
 FIX_COMMITS = ["4500ab7", "5737839", "2d5e69c", "bf43ee9", "0b45cfb", "823a22a", "a0bae4e", "a7c4305", "679711e", "6687037", "9f0056a", "8ebb5ae", "77c6db8", "a9e432f", "5be6b47",
-               "9204408", "62101af", "3d46141", "2ff2c50", "e379910", "1f6170d", "08f4d2e", "e15ae94", "3b1bac7", "6cf510e"]
+               "9204408", "62101af", "3d46141", "2ff2c50", "e379910", "1f6170d", "08f4d2e", "e15ae94", "3b1bac7", "6cf510e",
+               "f957fe3", "9839c25", "f3ebd21", "97472b2", "703b1b6", "8dc3815", "195ebf5"]
 
 CHECKS = {
     "C01": dict(
@@ -120,7 +121,9 @@ CHECKS["C03"] = dict(
          "machines built along different construction paths (constructor, composition, simulated API histories, "
          "double dagger) and sums of them.",
     note="Trusted: TLC, the projection. Data payloads from rotating finite menus (incl. falsy ones). The algebra of types "
-         "(Types.tla: tensor, adjoints, slices, powers) is a further leg.",
+         "(Types.tla: tensor, adjoints, slices, powers) is a further leg. The two abstract names also stand, in rotation, "
+         "for names that print like structure ('x.l', 'x @ x', 'Ty()', 1 and '1'); bubbles of the box pairs (with and "
+         "without explicit types) are compared as well.",
     ref="5/C03", technique="TLA+ spec + TLC-generated pairs and paths, trace validation of recorded comparisons")
 
 CHECKS["C18"] = dict(
@@ -182,8 +185,12 @@ CHECKS["C14"] = dict(
          "with the real subs/lambdify; TLC judges the projected result (kinds, flags, mixedness, substituted forms, "
          "free symbols before and after) and computes the exact arrays of closed results, against which "
          "substitute-then-evaluate, evaluate-then-substitute (Tensor.subs and a harness-side sympy substitution) "
-         "and lambdify are compared; lambdify(...)(...) must equal the substituted diagram.",
-    note="Trusted: TLC, float comparison, sympy for extracting affine coefficients. ZX / tensor-box parameters: not yet.",
+         "and lambdify are compared; lambdify(...)(...) must equal the substituted diagram. Further legs: ZX diagrams "
+         "with symbolic spider phases and scalars (Trace_ParamZX: substituted boxes, free symbols, and the lambdified "
+         "diagram called on the numbers of a closing step), tensor diagrams of symbolic 2x2 boxes with bubbles and "
+         "daggers (Trace_ParamT: three value routes plus lambdify).",
+    note="Trusted: TLC, float comparison, sympy for extracting affine coefficients. ZX diagrams have no evaluation "
+         "in this version of the library: their leg is structural. Symbolic ClassicalGate entries are not in the model.",
     ref="5/C14", technique="TLA+ spec + TLC behaviours (histories of substitutions), trace validation, exact reference values")
 
 CHECKS["C15"] = dict(
@@ -193,8 +200,13 @@ CHECKS["C15"] = dict(
          "parametrised pure and mixed circuits, symbols and grid points, grad(x, mixed=False) and the default grad(x) "
          "of the real library are evaluated symbolically, the point is substituted by the harness with sympy, and "
          "the result is compared with the float image of TLC's exact derivative; independent diagrams must give the "
-         "empty sum; NotImplementedError is counted as a refusal.",
-    note="Trusted: TLC, float comparison, sympy for substituting the point. Tensor-box/bubble gradients and jacobians: not yet.",
+         "empty sum; NotImplementedError is counted as a refusal. Tensor diagrams: expression trees over symbolic 2x2 "
+         "boxes (plain and daggered), composition, tensor, polynomial bubbles and formal sums at the top "
+         "(Trace_GradT computes value and derivative exactly: product and chain rules); the gradient is evaluated "
+         "and the point substituted afterwards, and the point is substituted into the gradient diagram and the "
+         "result evaluated (both must give the derivative); the jacobian must stack the gradients in order.",
+    note="Trusted: TLC, float comparison, sympy for substituting the point. One known finding (amplitude scalars "
+         "in mixed gradients).",
     ref="5/C15", technique="TLA+ exact derivative semantics + TLC as reference evaluator, replay of model circuits")
 
 CHECKS["C13"] = dict(
@@ -203,8 +215,12 @@ CHECKS["C13"] = dict(
          "circuit (to_tk), resp. CQ!Counts / the prepared state vector of the imported circuit must equal it "
          "(from_tk, for exported circuits and harness-assembled tket circuits with non-adjacent, reversed qubits). "
          "get_counts(backend) and eval(backend) run through a mock backend returning exact frequencies (numpy branch "
-         "simulator, itself checked against TLC) and are compared with TLC's exact distribution.",
-    note="Trusted: TLC, projections of tket circuits and of imported circuits, float comparison. Three known findings.",
+         "simulator, itself checked against TLC) and are compared with TLC's exact distribution, also for the circuit "
+         "as the second member of a batch whose first member carries another scalar. Deterministic families cover "
+         "what the bounded model cannot reach: dead wires, post-selection chains, bits after Copy / Match, "
+         "overriding measurements, bit swaps after post-selection, kets after holes, adjoints of named gates read "
+         "out in the X basis (Sdg / Tdg), rotations outside the first turn (exported and imported), distant qubits.",
+    note="Trusted: TLC, projections of tket circuits and of imported circuits, float comparison. Five known findings.",
     ref="5/C13", technique="TLA+ exact simulator + TLC judging recorded translations (translation validation)")
 
 NOT_YET = {}
